@@ -17,6 +17,8 @@ pub struct Binder {
     ctes: Vec<(String, Option<Vec<String>>)>,
     /// compare identifiers case-insensitively (unquoted folding differs per dialect: be lenient)
     pub fold_case: bool,
+    /// relations that exist only in the program text (`let` names): the statement must define them itself
+    pub program_relations: Vec<String>,
 }
 
 fn ident_value(v: &J) -> Option<String> {
@@ -146,6 +148,9 @@ impl Binder {
                     cols = c.clone();
                     found = true;
                 }
+            }
+            if !found && parts.len() == 1 && self.program_relations.iter().any(|n| n == &tname) {
+                self.err("program-relation-not-defined-in-statement", format!("FROM {tname}: `{tname}` is a `let` of the program, and no CTE of that name is in scope here"));
             }
             if !found && parts.len() == 1 && generated_relation_name(&tname) {
                 self.err("generated-relation-name-not-in-scope", format!("FROM {tname}: no CTE of that name is in scope here"));
@@ -357,6 +362,30 @@ pub fn sqlparser_dialect(d: prqlc::sql::Dialect) -> Box<dyn sqlparser::dialect::
 
 /// parse (dialect grammar) + bind; returns (key, message) of every failed clause
 pub fn check_sql(sql: &str, d: prqlc::sql::Dialect) -> Vec<(String, String)> {
+    check_sql_with(sql, d, &[])
+}
+
+/// names of the top-level `let` relations of a PRQL source (not functions, not names that are also read as
+/// a database table of the same name by the program)
+pub fn let_relations(src: &str) -> Vec<String> {
+    let mut out = vec![];
+    for line in src.lines() {
+        let Some(rest) = line.strip_prefix("let ") else { continue };
+        let Some((name, rhs)) = rest.split_once('=') else { continue };
+        let name = name.trim();
+        let rhs = rhs.trim_start();
+        if name.is_empty() || !name.chars().all(|c| c.is_ascii_alphanumeric() || c == '_') || rhs.starts_with("func") || rhs.starts_with('<') {
+            continue;
+        }
+        // only relation-valued lets: a pipeline in parentheses, an array literal or an s-string
+        if rhs.starts_with('(') || rhs.starts_with('[') || rhs.starts_with("s\"") || rhs.is_empty() {
+            out.push(name.to_string());
+        }
+    }
+    out
+}
+
+pub fn check_sql_with(sql: &str, d: prqlc::sql::Dialect, lets: &[String]) -> Vec<(String, String)> {
     let dial = sqlparser_dialect(d);
     let stmts = match sqlparser::parser::Parser::parse_sql(&*dial, sql) {
         Ok(s) => s,
@@ -369,7 +398,7 @@ pub fn check_sql(sql: &str, d: prqlc::sql::Dialect) -> Vec<(String, String)> {
         Ok(v) => v,
         Err(e) => return vec![("machinery".into(), e.to_string())],
     };
-    let mut b = Binder { fold_case: true, ..Default::default() };
+    let mut b = Binder { fold_case: true, program_relations: lets.to_vec(), ..Default::default() };
     b.statement(&v);
     b.errs
 }
